@@ -1054,6 +1054,197 @@ fn exhaustive_case(l: u32, idx: u64) -> Case {
     }
 }
 
+
+// ---------------------------------------------------------------------------------------------
+// Receive path (E3): what the daemon makes of a datagram is what is inside the datagram
+// ---------------------------------------------------------------------------------------------
+
+/// A well-formed answer (PTR, SRV, TXT, A for a browsed type and a searched host name), damaged in a
+/// generated way, delivered through the daemon's own receive path.
+#[derive(Clone, Debug, Serialize, Deserialize)]
+pub struct RxCase {
+    /// bytes cut off the end (0: none)
+    pub cut: u16,
+    /// 0 nothing, 1 ANCOUNT raised by one, 2 ARCOUNT raised by three, 3 RDLENGTH of the last record raised by two
+    pub lie: u8,
+    /// bytes appended after the message
+    pub tail: Vec<u8>,
+    pub v6: bool,
+    /// an intact copy follows (the damaged one must not have left anything behind that changes it)
+    pub then_intact: bool,
+}
+
+const RX_TY: &str = "_http._tcp.local.";
+const RX_HOST: &str = "rxhost.local.";
+
+pub fn check_rx(case: &RxCase, ctx: &mut CaseCtx) {
+    use crate::sim::*;
+    use mdns_sd::{HostnameResolutionEvent, ServiceEvent};
+    use std::net::{IpAddr, Ipv4Addr, Ipv6Addr, SocketAddr};
+    let ifs = if case.v6 {
+        vec![mdns_sd::verif::SimIf::new("eth0", 2, IpAddr::V6(Ipv6Addr::new(0xfd00, 1, 0, 0, 0, 0, 0, 1)), 64)]
+    } else {
+        vec![mdns_sd::verif::SimIf::new("eth0", 2, IpAddr::V4(Ipv4Addr::new(192, 168, 10, 1)), 24)]
+    };
+    let mut d = match SimDaemon::new("D", ifs, T0, 1) {
+        Ok(d) => d,
+        Err(e) => {
+            ctx.violation("C01/harness/spawn", e);
+            return;
+        }
+    };
+    let _ = d.d.set_ip_check_interval(1_000_000);
+    let mut w = World::new(T0);
+    let di = w.add(d);
+    let _ = w.daemons[di].browse(RX_TY);
+    let _ = w.daemons[di].resolve_hostname(RX_HOST, None);
+    w.settle();
+    // the answer
+    let addr: IpAddr = if case.v6 { IpAddr::V6(Ipv6Addr::new(0xfd00, 1, 0, 0, 0, 0, 0x4d4d, 0x4d4d)) } else { IpAddr::V4(Ipv4Addr::new(192, 168, 77, 77)) };
+    let sv = peer::Svc {
+        ty: Name::from_escaped(RX_TY),
+        sub: None,
+        inst: b"rx".to_vec(),
+        host: Name::from_escaped(RX_HOST),
+        port: 0x4d4d,
+        txt: b"\x05k=MMM".to_vec(),
+        addrs: vec![addr],
+    };
+    let intact = peer::response(sv.announcement(120, 4500), vec![]);
+    let mut bytes = intact.clone();
+    match case.lie % 4 {
+        1 => bytes[7] = bytes[7].wrapping_add(1),
+        2 => bytes[11] = bytes[11].wrapping_add(3),
+        3 => {
+            // the last record is the address: RDLENGTH sits before its RDATA
+            let rdlen = if case.v6 { 16 } else { 4 };
+            let pos = bytes.len() - rdlen - 1;
+            bytes[pos] = bytes[pos].wrapping_add(2);
+        }
+        _ => {}
+    }
+    let cut = (case.cut as usize).min(bytes.len().saturating_sub(12));
+    bytes.truncate(bytes.len() - cut);
+    bytes.extend_from_slice(&case.tail);
+    let src: SocketAddr = if case.v6 { SocketAddr::new(IpAddr::V6(Ipv6Addr::new(0xfd00, 1, 0, 0, 0, 0, 0, 0x77)), MDNS_PORT) } else { SocketAddr::new(IpAddr::V4(Ipv4Addr::new(192, 168, 10, 77)), MDNS_PORT) };
+    // the verdict of the crate's own decoder on exactly these bytes (judged against the reference in
+    // the other parts of this check)
+    let verdict = mdns_sd::verif::codec::decode(&bytes, "eth0", 2);
+    let pos0 = w.daemons[di].log.len();
+    {
+        let now = w.now;
+        let dm = &mut w.daemons[di];
+        dm.set_now(now);
+        dm.inject(2, src, bytes.clone());
+    }
+    w.settle();
+    let m_after = w.daemons[di].metrics();
+    let detail = |w: &World| format!("datagram ({} bytes, intact {}): {}\n--- history ---\n{}", bytes.len(), intact.len(), hex(&bytes), render_log(&w.daemons[di].log, true, 30));
+    if let Some(why) = &w.daemons[di].dead {
+        ctx.violation(panic_signature_rx(why), format!("the daemon thread died: {why}\n{}", detail(&w)));
+        w.finish();
+        return;
+    }
+    // addresses the daemon reported since the datagram
+    let mut reported: Vec<IpAddr> = Vec::new();
+    let mut events = 0;
+    for e in &w.daemons[di].log[pos0..] {
+        match &e.ev {
+            Ev::Svc { ev: ServiceEvent::ServiceResolved(r), .. } => {
+                events += 1;
+                reported.extend(r.get_addresses().iter().map(|a| a.to_ip_addr()));
+            }
+            Ev::Svc { ev: ServiceEvent::ServiceFound(..), .. } | Ev::Svc { ev: ServiceEvent::ServiceRemoved(..), .. } => events += 1,
+            Ev::Host { ev: HostnameResolutionEvent::AddressesFound(_, a), .. } => {
+                events += 1;
+                reported.extend(a.iter().map(|x| x.to_ip_addr()));
+            }
+            Ev::Host { ev: HostnameResolutionEvent::AddressesRemoved(..), .. } => events += 1,
+            _ => {}
+        }
+    }
+    let cached: i64 = m_after.as_ref().map(|m| ["cached-ptr", "cached-srv", "cached-txt", "cached-addr", "cached-nsec", "cached-subtype"].iter().map(|k| m.get(*k).copied().unwrap_or(0)).sum()).unwrap_or(0);
+    match &verdict {
+        Err(_) => {
+            ctx.class("datagram-rejected-by-the-decoder");
+            if events > 0 || cached > 0 {
+                ctx.violation(
+                    "C01/receive-path/rejected-datagram-has-effects",
+                    format!("the decoder rejects these bytes, yet the daemon reported {events} event(s) (addresses {reported:?}) and caches {cached} record(s) after receiving them\n{}", detail(&w)),
+                );
+                w.finish();
+                return;
+            }
+        }
+        Ok(v) => {
+            ctx.class("datagram-accepted-by-the-decoder");
+            let inside: Vec<IpAddr> = v.answers.iter().chain(v.authorities.iter()).chain(v.additionals.iter()).filter_map(|r| match &r.rdata {
+                    RDataView::A(a) => Some(IpAddr::V4(*a)),
+                    RDataView::Aaaa(a) => Some(IpAddr::V6(*a)),
+                    _ => None,
+                })
+                .collect();
+            if let Some(bad) = reported.iter().find(|a| !inside.contains(a)) {
+                ctx.violation("C01/receive-path/address-not-in-the-datagram", format!("the daemon reports {bad}, the datagram's records hold {inside:?}\n{}", detail(&w)));
+                w.finish();
+                return;
+            }
+            if cut == 0 && case.lie % 4 == 0 && !reported.contains(&addr) {
+                ctx.violation("C01/receive-path/intact-datagram-not-used", format!("the intact answer was not reported (events {events})\n{}", detail(&w)));
+                w.finish();
+                return;
+            }
+        }
+    }
+    // (a damaged datagram that still decodes is another answer, with whatever it then says)
+    if case.then_intact && verdict.is_err() {
+        let pos1 = w.daemons[di].log.len();
+        {
+            let now = w.now;
+            let dm = &mut w.daemons[di];
+            dm.set_now(now);
+            dm.inject(2, src, intact.clone());
+        }
+        w.settle();
+        let mut got: Vec<IpAddr> = Vec::new();
+        for e in &w.daemons[di].log[pos0..] {
+            if let Ev::Svc { ev: ServiceEvent::ServiceResolved(r), .. } = &e.ev {
+                got.extend(r.get_addresses().iter().map(|a| a.to_ip_addr()));
+            }
+        }
+        let _ = pos1;
+        if !got.contains(&addr) || got.iter().any(|a| *a != addr) {
+            ctx.violation("C01/receive-path/intact-copy-after-damaged-one", format!("after the damaged datagram and an intact copy the instance resolves to {got:?}, sent was {addr}\n{}", detail(&w)));
+            w.finish();
+            return;
+        }
+    }
+    ctx.class_if(cut > 0, "cut-short");
+    ctx.class_if(case.lie % 4 != 0, "lying-header-or-length");
+    ctx.nontrivial(format!("rx cut{} lie{} tail{} v6{} ok{}", cut.min(40), case.lie % 4, case.tail.len().min(4), case.v6, verdict.is_ok()));
+    w.finish();
+}
+
+fn panic_signature_rx(why: &str) -> String {
+    format!("C01/receive-path/daemon-died/{}", why.split(": ").next().unwrap_or(""))
+}
+
+fn hex(b: &[u8]) -> String {
+    b.iter().map(|x| format!("{x:02x}")).collect()
+}
+
+pub fn rx_strategy() -> BoxedStrategy<RxCase> {
+    (
+        prop_oneof![3 => Just(0u16), 4 => 1u16..=8, 4 => 1u16..200],
+        prop_oneof![5 => Just(0u8), 3 => 1u8..4],
+        prop_oneof![6 => Just(Vec::new()), 2 => proptest::collection::vec(any::<u8>(), 1..6), 1 => proptest::collection::vec(Just(0u8), 1..40)],
+        any::<bool>(),
+        proptest::bool::weighted(0.4),
+    )
+        .prop_map(|(cut, lie, tail, v6, then_intact)| RxCase { cut, lie, tail, v6, then_intact })
+        .boxed()
+}
+
 pub fn run(tier: Tier) -> i32 {
     let mut agg = Agg::new("C01", tier);
     agg.assume("reference decoder refdns (harness/src/refdns.rs) is a correct, total RFC 1035 decoder accepting a superset of sane encodings");
@@ -1089,6 +1280,20 @@ pub fn run(tier: Tier) -> i32 {
             },
         },
     );
+    run_regressions::<RxCase>(&mut agg, "receive-path", &check_rx);
+    run_part(
+        &mut agg,
+        &Part {
+            name: "receive-path",
+            rule: "a well-formed answer (PTR, SRV, TXT, A/AAAA) for a browsed type and a searched host name, cut short by 0..200 bytes and/or with a raised ANCOUNT / ARCOUNT / RDLENGTH and/or trailing bytes, delivered through the daemon's receive path (simulation), optionally followed by an intact copy; judged against the decoder's verdict on exactly those bytes: rejected = no event, nothing cached; accepted = every reported address is in the datagram; non-trivial = every case (distinct by damage)",
+            cases: scale(tier.pick(6_000, 100_000)),
+            max_shrink_iters: 200,
+            strategy: &rx_strategy,
+            check: &check_rx,
+        },
+    );
+    agg.require_class("receive-path:datagram-rejected-by-the-decoder", 1000);
+    agg.require_class("receive-path:datagram-accepted-by-the-decoder", 500);
     let l = tier.pick(5, 7);
     let n = exhaustive_count(l) * FRAMES as u64;
     run_enumerated(
@@ -1114,6 +1319,9 @@ pub fn replay(file: &std::path::Path) -> i32 {
         if let Some(code) = replay_part::<Case>("C01", part, file, 1, &check) {
             return code;
         }
+    }
+    if let Some(code) = replay_part::<RxCase>("C01", "receive-path", file, 3, &check_rx) {
+        return code;
     }
     eprintln!("harness error: replay file does not belong to C01");
     2
